@@ -46,7 +46,7 @@ TabDef == [dimsize |-> LDimSize, dimoff |-> LDimOff, dimw |-> LDimW, lenw |-> LL
            hsize |-> HSize, hbloff |-> HBlOff, hblw |-> HBlW,
            ce |-> ([li \in 1 .. NL |-> CEDef(li)]) \o <<>>,
            flat |-> ([li \in 1 .. NL |-> IsFlat(LDef[li])]) \o <<>>,
-           ng |-> ([li \in 1 .. NL |-> tab.ng[li]]) \o <<>>,
+           ng |-> ([li \in 1 .. NL |-> Len(LDef[li].groups)]) \o <<>>,
            nd |-> ([li \in 1 .. NL |-> Len(LDef[li].data)]) \o <<>>]
 TabInit == tab = TabDef
 TDimSize(gli) == tab.dimsize[gli]
